@@ -18,13 +18,14 @@ import (
 	"net/http/httptest"
 	"net/url"
 	"strings"
-	"sync"
+	"sync/atomic"
 	"testing"
 	"time"
 
 	"github.com/lestrrat-go/jwx/v2/jwa"
 	"github.com/lestrrat-go/jwx/v2/jwt"
 	"github.com/nuts-foundation/nuts-node/crypto/dpop"
+	"github.com/nuts-foundation/nuts-node/storage"
 )
 
 type c02DPoPVal struct {
@@ -458,39 +459,71 @@ func (w *c02World) execTokSkew(op *c02Op) string {
 	})
 }
 
-// execOnceOnly: op.Ms goroutines, each obtaining the s2s nonce store through the REAL per-request accessor (GetStore on the real
-// session database), register the same fresh key at the same moment; repeated for op.Key+"-<round>". At most one may be told "fresh".
+// execOnceOnly: two requests register the same fresh s2s nonce; each obtains its store through the REAL per-request GetStore on the
+// real in-memory session database (as s2sNonceStore() does), over a gated go-cache client. Forced interleaving: request A is parked
+// between the Get and the Put of its PutIfAbsent, then request B runs. With the database-wide mutex B cannot even read before A is
+// done (B is observed blocked, A is released, B is told "not fresh"); if B gets through, both are told the nonce is fresh.
 func (w *c02World) execOnceOnly(op *c02Op) string {
 	op.T = w.nowNs()
-	n := int(op.Ms)
-	worst := 0
-	for round := 0; round < 40; round++ {
-		key := fmt.Sprintf("%s-%d", op.Key, round)
-		start := make(chan struct{})
-		var wg sync.WaitGroup
-		var mu sync.Mutex
-		fresh := 0
-		for i := 0; i < n; i++ {
-			wg.Add(1)
-			go func() {
-				defer wg.Done()
-				store := w.w.s2sNonceStore()
-				<-start
-				if ok, err := store.PutIfAbsent(key, true); err == nil && ok {
-					mu.Lock()
-					fresh++
-					mu.Unlock()
-				}
-			}()
+	var phase atomic.Int32
+	events := make(chan string, 16)
+	releaseA := make(chan struct{})
+	gate := func(method, key string) {
+		if !strings.Contains(key, op.Key) {
+			return
 		}
-		close(start)
-		wg.Wait()
-		if fresh > worst {
-			worst = fresh
+		if phase.Load() == 0 && method == "Set" {
+			events <- "A-at-Set"
+			<-releaseA
+			return
+		}
+		if phase.Load() == 1 && method == "Get" {
+			events <- "B-at-Get"
 		}
 	}
-	return fmt.Sprintf("once-only max-fresh=%d", worst)
+	db := storage.NewVerifGatedCacheDB(gate)
+	fresh := [2]bool{}
+	done := [2]chan struct{}{make(chan struct{}), make(chan struct{})}
+	request := func(i int) {
+		defer close(done[i])
+		st := db.GetStore(s2sMaxClockSkewForOnceOnly(), "s2s", "nonce")
+		ok, err := st.PutIfAbsent(op.Key, true)
+		fresh[i] = err == nil && ok
+	}
+	go request(0)
+	select {
+	case <-events:
+	case <-done[0]:
+		return "once-only A-never-parked"
+	case <-time.After(10 * time.Second):
+		return "once-only timeout"
+	}
+	phase.Store(1)
+	go request(1)
+	through := false
+	select {
+	case <-events:
+		through = true
+		<-done[1]
+	case <-done[1]:
+		through = true
+	case <-time.After(300 * time.Millisecond):
+		// B is kept out (it waits for the mutex A holds)
+	}
+	close(releaseA)
+	<-done[0]
+	<-done[1]
+	n := 0
+	for _, f := range fresh {
+		if f {
+			n++
+		}
+	}
+	_ = through
+	return fmt.Sprintf("once-only max-fresh=%d", n)
 }
+
+func s2sMaxClockSkewForOnceOnly() time.Duration { return time.Minute }
 
 // c02TargetedExpiry (l): tokens whose record expired a fraction of a second ago but are still in the store: introspected at once
 // (plain and extended, direct and over HTTP) - inside the same wall-clock second for most offsets; plus the once-only registration
@@ -519,8 +552,8 @@ func c02TargetedExpiry(t *testing.T, out *c02Out, rng *rand.Rand) {
 			out.emit(&in, w.exec(&in))
 		}
 	}
-	if !w.redis {
-		oo := c02Op{Op: "onceonly", Key: "race-nonce", Ms: 8}
+	for k := 0; k < 2; k++ {
+		oo := c02Op{Op: "onceonly", Key: fmt.Sprintf("race-nonce-%d", k), Ms: 2}
 		out.emit(&oo, w.exec(&oo))
 	}
 	w.ctrl.Finish()
